@@ -162,6 +162,7 @@ def main() -> int:
     axioms = {}
     theorems = []
     forbidden = []
+    rechecked = None
     if not args.no_build:
         ok, log = C.run_translate()
         if not ok:
@@ -204,6 +205,15 @@ def main() -> int:
             forbidden = C.grep_forbidden()
             if forbidden:
                 proof_broken = f"forbidden tokens in Lean sources: {forbidden}"
+            if tier == "thorough" and proof_broken is None and lean_modules:
+                # independent re-check of the compiled property modules by leanchecker
+                try:
+                    ok, log = C.leanchecker(lean_modules)
+                    rechecked = ok
+                    if not ok:
+                        proof_broken = "leanchecker rejected the compiled property modules:\n" + log[-2000:]
+                except Exception as e:
+                    notes.append(f"leanchecker could not run: {e}")
 
     driver = C.Driver(driver_name) if driver_name else None
     if driver is not None and not driver.available():
@@ -324,6 +334,7 @@ def main() -> int:
             "theorems": theorems,
             "axioms_used": sorted({a for v in axioms.values() for a in v}),
             "forbidden_token_hits": forbidden,
+            "leanchecker_rechecked": rechecked,
             "traces_validated_against_impl": len([r for r in records if r["model"] is not None and not r["diffs"]]),
             "disagreements_checked": len(disagreements),
             "evaluations": len(records),
